@@ -16,6 +16,16 @@ NODE_HOST = "node.verif.example"
 REALM = "verif.example"
 
 
+def scripted_failure(m):
+    """The exception a failing handler raises: which class varies with the request (deterministically), since
+    'handling fails' is not one exception type - with and without arguments, the library's own NotRoutable (what
+    a handler gets that forwards to an unreachable peer), lookup and assertion errors."""
+    from diameter.node import NotRoutable
+    k = m.header.hop_by_hop_identifier % 6
+    return [RuntimeError("scripted handler failure"), NotRoutable("scripted: nowhere to forward to"), RuntimeError(),
+            KeyError("missing"), AssertionError(), ValueError("bad value " + "x" * 300)][k]
+
+
 class RecApp(Application):
     """Basic application: records deliveries; behaviour per request is scripted."""
 
@@ -42,7 +52,7 @@ class RecApp(Application):
         elif b == "defer":
             self.deferred.append(m)
         elif b == "raise":
-            raise RuntimeError("scripted handler failure")
+            raise scripted_failure(m)
         elif b == "none":
             return None
 
@@ -100,7 +110,7 @@ class RecThreadingApp(ThreadingApplication):
                     setattr(ans, a, getattr(m, a))
             return ans
         if b == "raise":
-            raise RuntimeError("scripted handler failure")
+            raise scripted_failure(m)
         return None
 
     def handle_answer(self, m):
